@@ -67,4 +67,13 @@ for _pid, _mods in (("C04", ["Check.C04"]), ("C05", ["Spec.WellFormed", "Check.C
         technique="Coq proof over the ledger/node model + differential correspondence on generated block-tree histories",
         level_text="WORK IN PROGRESS", level_note="WORK IN PROGRESS")
 
+# C17 has a second part: the page arithmetic of the get_tx_list RPC handler, driven over HTTP by a test inside /repo
+_c17 = dict(PROPS["C17"])
+PROPS["C17"] = dict(_c17, parts=[
+    dict(configs=["verifnet"], harness="ledger", family="hist", harness_procs=8, parallel=16,
+         check_mods=_c17["check_mods"], corr=_c17["corr"], prop=_c17["prop"]),
+    dict(configs=["unittest"], gotest=dict(run="TestVerifPaging", pkg="./cmd/virel-node"), family="paging",
+         check_mods=["Model.Paging", "Check.C17p"], corr="c17p_bad_corr", prop="c17p_bad_prop"),
+])
+
 NOT_APPLICABLE = {}
